@@ -268,6 +268,13 @@ class RefModel:
         cls = self._periodic_classes(a, W)
         if cls:
             for C in cls:
+                # documented: limits of the merged steps are averaged
+                for col in (0, 1):
+                    js = [sorted(fvars[t])[col] for t in C]
+                    lb = sum(self.lp.lb[j] for j in js) / len(js)
+                    ub = sum(self.lp.ub[j] for j in js) / len(js)
+                    for j in js:
+                        self.lp.lb[j], self.lp.ub[j] = lb, ub
                 for t in C[1:]:
                     co = {}
                     expr_add(co, fvars[C[0]], 1.0)
@@ -352,7 +359,9 @@ class RefModel:
         disc = self._disc(a)
         groups = self._groups(a, W)
         if groups is not None:
-            raise Unsupported("coarse storage handled by C13 only through EAO's own documentation")  # not modelled
+            W = [t for G in groups for t in G]
+            if float(a.get("cost_store", 0.0)):
+                raise Unsupported("holding costs of a coarse storage are booked on coarse steps (not a fine-grid quantity)")
         size = float(a["size"])
         cin, cout = float(a["cap_in"]), float(a["cap_out"])
         start, end = float(a.get("start_level", 0.0)), float(a.get("end_level", 0.0))
@@ -360,6 +369,11 @@ class RefModel:
         inflow = float(a.get("inflow", 0.0))
         c_in, c_out, c_store = float(a.get("cost_in", 0.0)), float(a.get("cost_out", 0.0)), float(a.get("cost_store", 0.0))
         price = self._vec(a.get("price"), W) if a.get("price") else {t: 0.0 for t in W}
+        if groups is not None:
+            for G in groups:
+                mprice = sum(price[t] for t in G) / len(G)
+                for t in G:
+                    price[t] = mprice
         nodes = a["nodes"]
         self.aux[name] = dict(c={}, d={}, W=W, blocks=[])
         self.levels[name] = {}
@@ -395,6 +409,22 @@ class RefModel:
                     # holding cost on the level at the end of the step, minus the documented constant part
                     w = c_store * g.dt[t] * disc[t]
                     self._addcost(name, t, {j: w * v for j, v in lev.items()})
+        # coarse frequency: constant charge / discharge rates inside each coarse interval
+        if groups is not None:
+            for G in groups:
+                for t in G[1:]:
+                    for vv in (cvars, dvars):
+                        lp.row({vv[G[0]]: 1.0 / g.dt[G[0]], vv[t]: -1.0 / g.dt[t]}, 0.0, 0.0)
+        # periodicity: same charge and same discharge at equal positions of the periods (limits averaged)
+        cls = self._periodic_classes(a, W)
+        if cls:
+            for C in cls:
+                for vv in (cvars, dvars):
+                    ub = sum(lp.ub[vv[t]] for t in C) / len(C)
+                    for t in C:
+                        lp.ub[vv[t]] = ub
+                    for t in C[1:]:
+                        lp.row({vv[C[0]]: 1.0, vv[t]: -1.0}, 0.0, 0.0)
         # MIP options
         if a.get("no_simult_in_out"):
             for t in W:
@@ -540,7 +570,7 @@ class RefModel:
     def evaluate(self, expr, const=0.0):
         return const + sum(self.x[j] * v for j, v in expr.items())
 
-    def pin_rows(self, table, tol=1e-7):
+    def pin_rows(self, table, tol=1e-6):
         """equality rows fixing every (asset, node, step) flow to the given table
         table: {(asset, node): array over the full grid}; missing entries are pinned to 0"""
         rows = []
@@ -555,7 +585,7 @@ class RefModel:
                 self.pin_slack += 4 * eps * cmax
         return rows
 
-    def plug_in(self, table, tol=1e-7):
+    def plug_in(self, table, tol=1e-6):
         """pin all flows to the table and re-solve: -> (status, value). Also reports flows
         the table has outside the model's support."""
         stray = []
@@ -567,10 +597,40 @@ class RefModel:
         if stray:
             return "stray_flow:%s" % (stray[:3],), None
         st, x, obj = self.lp.solve(extra_rows=self.pin_rows(table, tol))
+        if st == "infeasible":
+            # guard against a solver-tolerance artefact: a band of width ~1e-6 next to exact balance rows can be
+            # declared infeasible by presolve. Decide with an elastic model (minimal total deviation from the table).
+            dev = self.min_deviation(table)
+            if dev is not None and dev <= 1e-5 * (1.0 + self._table_scale(table)):
+                st, x, obj = self.lp.solve(extra_rows=self.pin_rows(table, 20 * tol))
         if st != "optimal":
             return st, None
         self.x_plug = x
         return st, -(obj + self.lp.const)
+
+    def _table_scale(self, table):
+        return max([float(np.abs(v).max(initial=0.0)) for v in table.values()] + [0.0])
+
+    def min_deviation(self, table):
+        """elastic plug-in: minimal sum of |model flow - table flow| over all pinned flows (None if the model itself is infeasible)"""
+        lp = self.lp
+        n0 = len(lp.lb)
+        rows, slack = [], []
+        for (asset, node), d in self.flows.items():
+            arr = table.get((asset, node))
+            for t, e in d.items():
+                v = 0.0 if arr is None else float(arr[t])
+                sp_, sm_ = lp.var(0.0, INF), lp.var(0.0, INF)
+                slack += [sp_, sm_]
+                co = dict(e)
+                co[sp_] = 1.0
+                co[sm_] = -1.0
+                rows.append((co, v, v))
+        try:
+            st, x, obj = lp.solve(extra_rows=rows, maximize_expr={j: -1.0 for j in slack})
+            return None if st != "optimal" else float(sum(x[j] for j in slack))
+        finally:
+            del lp.lb[n0:], lp.ub[n0:], lp.cost[n0:], lp.integ[n0:]
 
     def asset_cost_by_step(self, x=None):
         """discounted cost per asset and step for a solution vector"""
